@@ -42,8 +42,8 @@ Qed.
 
 (** the answers of the model for a duplicate-free, re-iterable FiniteDomain pass [bij_oracle],
     whatever values are probed (as long as the domain's own values are among them) *)
-Theorem bij_oracle_model items probes : NoDup items -> (forall v, In v items -> In v probes) ->
-  let d := mk_finite Reiterable items in
+Theorem bij_oracle_model k items probes : NoDup items -> (forall v, In v items -> In v probes) ->
+  let d := mk_finite k items in
   bij_oracle items (length items)
              (combine probes (combine (map (dom_contains d) probes) (map (dom_numberize d) probes)))
              (map (fun i => dom_denumberize d (vnat i)) (seq 0 (length items))) = true.
